@@ -148,7 +148,8 @@ LOCALS = ['2021-01-15T12:00:00', '2021-07-15T12:00:00', '2021-03-14T02:30:00', '
           '2021-03-28T02:30:00', '2021-10-31T02:30:00', '1999-12-31T23:59:59', '2037-06-01T00:00:00',
           '1919-03-30T02:30:00']
 ALIASES = ['US/Eastern', 'US/Pacific', 'Europe/Kyiv', 'Australia/ACT', 'Asia/Calcutta', 'America/Argentina/Buenos_Aires',
-           'America/Indiana/Indianapolis', 'Etc/GMT+5', 'Etc/UTC', 'GB', 'NZ', 'Europe/Belfast', 'Canada/Newfoundland']
+           'America/Indiana/Indianapolis', 'America/Indiana/Knox', 'America/Argentina/Salta', 'America/Kentucky/Monticello',
+           'America/North_Dakota/Center', 'America/Indiana/Tell_City', 'Etc/GMT+5', 'Etc/UTC', 'GB', 'NZ', 'Europe/Belfast', 'Canada/Newfoundland']
 
 
 def check_other(case):
@@ -201,6 +202,8 @@ def plan(tier, seed, excl):
     t.append(('maplaws', {}))
     t += [('other-fixed', {'lo': lo, 'hi': lo + 210}) for lo in range(-840, 841, 210)]
     t.append(('other-alias', {}))
+    t += [('same-instant', {'shard': i, 'of': 4}) for i in range(4)]
+    t.append(('unmapped-names', {}))
     t += [('random', {'shard': i, 'n': 1500 if q else 40000}) for i in range(6)]
     return t
 
@@ -236,6 +239,57 @@ def run(part, args, env):
                             acc.sample(case)
         acc.bulk(n, n)
         acc.exhaustive['mapped zones x tabulated transitions x deltas x microseconds x formats'] = bool(args['all'])
+    elif part == 'same-instant':
+        # the same instant written in every zone, one after the other in one process: each must carry its own zone
+        # (aware date-times of one instant are == and hash alike, whatever their zone)
+        names = sorted(zmap())
+        n = 0
+        insts = [datetime.datetime(2021, 1, 15, 12), datetime.datetime(2021, 7, 15, 3, 30, 15), datetime.datetime(1999, 12, 31, 23, 59, 59),
+                 datetime.datetime(2030, 3, 10, 10)]
+        for k, inst in enumerate(insts):
+            if k % args['of'] != args['shard']:
+                continue
+            for us in (0, 999999):
+                for fmt in ('zinc', 'json'):
+                    for z in names:
+                        case = {'zone': z, 'utc': _fmt(inst), 'us': us, 'fmt': fmt, 'grid': False}
+                        n += 1
+                        try:
+                            check_mapped(case)
+                        except Violation as v:
+                            acc.violation(v)
+                            if len(acc.violations) >= acc.MAX_VIOL:
+                                return acc
+        acc.bulk(n, n, labels=('same-instant-all-zones',))
+        acc.sample({'instant': _fmt(insts[args['shard']]), 'zones': 'all %d, consecutively' % len(names)})
+    elif part == 'unmapped-names':
+        # documents carrying official Haystack zone names this host does not map must not disturb the mapping
+        from hszinc import zoneinfo
+        import hszinc
+        unmapped = sorted(set(zoneinfo.HAYSTACK_TIMEZONES_SET) - set(zmap()))
+        n = 0
+        for name in unmapped + ['Nowhere', 'Knox', 'Salta']:
+            for txt, mode in (('2021-06-01T12:00:00-05:00 %s' % name, hszinc.MODE_ZINC), ('t:2021-06-01T12:00:00-05:00 %s' % name, hszinc.MODE_JSON)):
+                n += 1
+                try:
+                    back = hszinc.parse_scalar(txt, mode=mode)
+                except ValueError:
+                    continue
+                except Exception as e:  # noqa
+                    acc.violation(Violation('parse-raises', {'text': txt}, 'reading %r raised %s' % (txt, describe_exc(e))))
+                    continue
+                if not isinstance(back, datetime.datetime) or back.utcoffset() != datetime.timedelta(hours=-5):
+                    acc.violation(Violation('offset', {'text': txt}, 'read %r as %r' % (txt, back)))
+        try:
+            k = check_map_laws()
+            for z in sorted(zmap())[::7]:
+                check_mapped({'zone': z, 'utc': '2021-06-01T12:00:00', 'us': 0, 'fmt': 'zinc', 'grid': False})
+                check_mapped({'zone': z, 'utc': '2021-06-01T12:00:00', 'us': 0, 'fmt': 'json', 'grid': False})
+                n += 2
+            acc.bulk(n + k, n + k, labels=('unmapped-names-then-map-laws',))
+            acc.sample({'unmapped_official_names': unmapped[:8], 'count': len(unmapped)})
+        except Violation as v:
+            acc.violation(v)
     elif part == 'maplaws':
         try:
             k = check_map_laws()
